@@ -87,6 +87,7 @@ type Flow struct {
 }
 
 type Exec struct {
+	retTextSeen    map[int]int // per text-anchored ret hint: matching return statements seen so far
 	forIdx         types.Object   // init variable of the classic for loop about to be processed
 	loopIdxStack   []types.Object // per active execLoop: its $i variable (nil for none)
 	closureIdx     []*Term // indices of the callee iterations whose callback literal is being executed (innermost last)
